@@ -275,7 +275,7 @@ IDENT_METH = {"reshape", "ravel", "copy", "astype", "flatten", "squeeze"}
 # symbol families: a different member in the same position is a definite mismatch (DESIGN §2.1)
 FAMILIES = [{"round", "floor", "ceil", "trunc", "int", "floordiv"}, {"min", "max", "nanmin", "nanmax"}, {"sin", "cos", "tan"},
             {"median", "mean", "sum", "average", "nanmedian", "nanmean", "var"}, {"sqrt", "log", "exp", "abs", "hypot"}, {"arctan2"}, {"mod"}]
-INTERPRETED = set().union(*FAMILIES) | {"linspace", "size", "pow"}
+INTERPRETED = set().union(*FAMILIES) | {"linspace", "linspace01", "size", "pow"}
 
 
 class Builder:
@@ -391,6 +391,17 @@ class Builder:
                 return self.nf(("binop", op, args[0], args[1]), env)
             if name == "numpy.negative":
                 return -self.nf(args[0], env)
+            if name in SYN and SYN[name] == "hypot" and len(args) == 2 and not kws:
+                a, b = self.nf(args[0], env), self.nf(args[1], env)
+                return sp.fn("sqrt", a * a + b * b)
+            if name in SYN and SYN[name] in ("cos", "sin") and len(args) == 1 and args[0][0] == "call" and SYN.get(callee(args[0])) == "arctan2" and len(args[0][2]) == 2:
+                # cos(atan2(y, x)) = x / hypot(x, y), sin(atan2(y, x)) = y / hypot(x, y)   (for (x, y) != (0, 0))
+                y, x = self.nf(args[0][2][0], env), self.nf(args[0][2][1], env)
+                return (x if SYN[name] == "cos" else y) / sp.fn("sqrt", x * x + y * y)
+            if name in SYN and SYN[name] == "linspace" and len(args) == 3 and not [k_ for k_, _v in kws if k_ not in ("dtype",)]:
+                # linspace(lo, hi, n) = lo + (hi - lo) * linspace(0, 1, n)
+                lo, hi, n = (self.nf(a, env) for a in args)
+                return lo + (hi - lo) * sp.fn("linspace01", n)
             if name in SYN:
                 extra = [v for k_, v in kws if k_ in ("axis",)]
                 return sp.fn(SYN[name], *[self.nf(a, env) for a in args], *[self.nf(v, env) for v in extra])
@@ -453,6 +464,10 @@ def compare(sp, got, want):
         fam = family_of(n)
         if fam is None or not (fam & missing):
             return None       # a function the specification does not use and that replaces nothing: possibly an identity we do not know
+    for n in missing:
+        fam = family_of(n)
+        if fam is None or not (fam & extra):
+            return None       # a function of the specification that the code does without: possibly eliminated through an identity we do not know
     if gsym <= wsym | {"pi"}:
         return False
     return None
